@@ -76,7 +76,8 @@ def spawn (e : Eff) (p : Proc) : Eff := { e with ps := { e.ps with procs := e.ps
 /-- the process a generator handler starts as -/
 def newProc (ps : PS) (ev : Ev) (d : HandlerDef) : Proc :=
   { ent := ev.target, kind := ev.kind, daemon := ev.daemon, segs := d.segs,
-    hooks := (ps.hookOf.filter (fun p => p.1 == ev.id)).map (·.2), ev := ev.id }
+    hooks := (ps.hookOf.filter (fun p => p.1 == ev.id)).map (·.2), ev := ev.id,
+    hops := hopsAt ps.hopsOf ev.tag }
 
 /-- the effect computed by `procHandle` -/
 def procEff (ps : PS) (now : Nat) (ev : Ev) : Eff :=
